@@ -112,6 +112,80 @@ theorem C18_snapshot (v : Variant) (s : Sys) (i : Nat) (t : Thread) (rest : List
     (step v s i).lin = s.lin ++ [(i, .iter, .snap s.content)] ∧ (step v s i).cur = s.cur := by
   simp [step, ht, hpc, hprog, seqStep]
 
+/-! ### The log is complete and per-thread ordered -/
+
+/-- The ghost log restricted to thread `i` is exactly what thread `i` has returned so far. -/
+def LogComplete (s : Sys) : Prop :=
+  ∀ i t, s.threads[i]? = some t → (s.lin.filter (fun e => e.1 == i)).map (·.2) = t.rets
+
+private theorem lc_append (s : Sys) (j : Nat) (t t' : Thread) (op : Op) (r : Ret)
+    (h : LogComplete s) (hj : s.threads[j]? = some t) (hr : t'.rets = t.rets ++ [(op, r)])
+    (heap : List Map) (cur : Nat) :
+    LogComplete { heap := heap, cur := cur, threads := setThread s.threads j t', lin := s.lin ++ [(j, op, r)] } := by
+  intro i ti hi
+  simp only [setThread, List.getElem?_set] at hi
+  by_cases hij : j = i
+  · subst hij
+    have hlt : j < s.threads.length := by
+      rcases List.getElem?_eq_some_iff.mp hj with ⟨hl, _⟩; exact hl
+    simp only [if_true, hlt] at hi
+    cases hi
+    simp [List.filter_append, hr, h j t hj]
+  · simp only [hij, if_false] at hi
+    have hne : (j == i) = false := by simp [hij]
+    simp [List.filter_append, hne, h i ti hi]
+
+private theorem lc_same (s : Sys) (j : Nat) (t t' : Thread)
+    (h : LogComplete s) (hj : s.threads[j]? = some t) (hr : t'.rets = t.rets) :
+    LogComplete { s with threads := setThread s.threads j t' } := by
+  intro i ti hi
+  simp only [setThread, List.getElem?_set] at hi
+  by_cases hij : j = i
+  · subst hij
+    have hlt : j < s.threads.length := by
+      rcases List.getElem?_eq_some_iff.mp hj with ⟨hl, _⟩; exact hl
+    simp only [if_true, hlt] at hi
+    cases hi
+    rw [hr]; exact h j t hj
+  · simp only [hij, if_false] at hi
+    exact h i ti hi
+
+theorem logComplete_step (v : Variant) (s : Sys) (j : Nat) (h : LogComplete s) : LogComplete (step v s j) := by
+  unfold step
+  split
+  · exact h
+  · rename_i t hj
+    split
+    · split
+      · exact h
+      · rename_i op rest hprog
+        split
+        all_goals first
+          | exact lc_append s j t _ _ _ h hj rfl _ _
+          | exact lc_same s j t _ h hj rfl
+    · split
+      · exact lc_append s j t _ _ _ h hj rfl _ _
+      · exact lc_same s j t _ h hj rfl
+
+/-- **C18 (log completeness), either variant.** In every execution the linearization log
+    restricted to a thread is exactly the sequence of operations that thread has completed,
+    with the values it was given, in program order: nothing completed is missing from the
+    log, nothing is logged twice, and each entry was appended by a step of that very thread
+    (i.e. between the operation's call and its return). -/
+theorem C18_log_complete (v : Variant) (m0 : Map) (progs : List (List Op)) (sched : List Nat) :
+    LogComplete (run v (init m0 progs) sched) := by
+  unfold run
+  suffices ∀ s, LogComplete s → LogComplete (sched.foldl (step v) s) from
+    this _ (by
+      intro i t hi
+      simp only [init, List.getElem?_map] at hi
+      cases hp : progs[i]? with
+      | none => simp [hp] at hi
+      | some p => simp [hp] at hi; subst hi; rfl)
+  induction sched with
+  | nil => intro s h; exact h
+  | cons i sched ih => intro s h; exact ih _ (logComplete_step v s i h)
+
 /-! ### An entry that is removed is handed to exactly one remover -/
 
 def hW (k : Nat) (e : Nat × Op × Ret) : Nat :=
